@@ -69,6 +69,8 @@ def real_swap_distance(p1, p2):
 def replay(w):
     if w.get("clause") == "from_sequence":
         return replay_seq(w)
+    if w.get("clause") == "flows":
+        return replay_flows(w)
     got = real_swap_distance(w["p1"], w["p2"])
     exp = py_cycles_distance(w["p1"], w["p2"])
     info = dict(swap_distance=got, n_minus_cycles=exp)
@@ -295,6 +297,171 @@ def job_from_sequence(m, timeout_s=900):
     return held(summary=f"from_sequence_and_distance m={m}: {eng.paths} paths {eng.outcomes}", sample=dict(objects=m, outcomes=eng.outcomes), **common)
 
 
+# ------------------------------------------------------------------ flow construction (Instance.__init__)
+def sym_rankdata_minus_one(dist_rows, n):
+    """declarative model of scipy.stats.rankdata(distances, axis=1, method='average') - 1.0 as reals:
+    average rank of d_ij in row i = #{k: d_ik < d_ij} + (#{k: d_ik == d_ij} + 1)/2; validated against scipy in the self-test"""
+    from symx.core import SymReal
+    cells = []
+    for i in range(n):
+        for j in range(n):
+            v = lift(dist_rows[i][j])
+            less = z3.Sum([z3.If(lift(dist_rows[i][k]) < v, 1, 0) for k in range(n)])
+            eq = z3.Sum([z3.If(lift(dist_rows[i][k]) == v, 1, 0) for k in range(n)])
+            cells.append(SymReal(z3.simplify((2 * z3.ToReal(less) + z3.ToReal(eq) + 1) / 2 - 1)))
+    return SymArray(cells, (n, n), name="ranks")
+
+
+class _QapRecorder:
+    def __init__(self, box):
+        self._box = box
+
+    def __getattribute__(self, name):
+        if name == "__init__":
+            box = object.__getattribute__(self, "_box")
+
+            def init(dist_matrix, flow_matrix, name=None):
+                box["distances"], box["flows"], box["name"] = dist_matrix, flow_matrix, name
+                box["self"].n = len(dist_matrix)
+            return init
+        return object.__getattribute__(self, name)
+
+
+def py_flow_problems(D, F, horizon):
+    """violations of the documented flow properties for a concrete distance matrix D and flow matrix F"""
+    n = len(D)
+    probs = []
+    for i in range(n):
+        if F[i][i] != 0:
+            probs.append(f"flow[{i}][{i}] != 0")
+        for j in range(n):
+            for k in range(n):
+                if len({i, j, k}) == 3:
+                    if D[i][j] < D[i][k] and F[i][j] < F[i][k]:
+                        probs.append(f"row {i}: nearer {j} has smaller flow {F[i][j]} than farther {k} ({F[i][k]})")
+                    if D[i][j] == D[i][k] and F[i][j] != F[i][k]:
+                        probs.append(f"row {i}: equally distant {j},{k} have flows {F[i][j]} != {F[i][k]}")
+        for j in range(n):
+            if i != j:
+                rank = sum(1 for k in range(n) if D[i][k] < D[i][j]) + (sum(1 for k in range(n) if D[i][k] == D[i][j]) + 1) / 2 - 1
+                if rank > horizon and F[i][j] != 0:
+                    probs.append(f"row {i}: neighbour {j} of rank {rank} beyond horizon {horizon} has flow {F[i][j]}")
+    return probs
+
+
+def replay_flows(w):
+    import numpy as np
+    from moptipyapps.order1d.instance import Instance
+    D = w["D"]
+    n = len(D)
+    inst = Instance(np.array(D), w["power"], w["horizon"], ("t",), [(f"o{i}", i) for i in range(n)])
+    F = [[int(v) for v in r] for r in inst.flows]
+    Dm = [[int(v) for v in r] for r in inst.distances]
+    probs = py_flow_problems(D, F, w["horizon"])
+    if Dm != [[abs(i - j) for j in range(n)] for i in range(n)]:
+        probs.append("position distances are not |i-j|")
+    return bool(probs), dict(flows=F, problems=probs[:4])
+
+
+def job_flows(n, power, horizon, timeout_s=900):
+    import numpy as np
+    import moptipyapps.order1d.instance as oi
+    box = {}
+    ov = core.install_builtins(dict(rankdata=lambda distances, axis=1, method="average": sym_rankdata_minus_one(distances, n) if False else _rank_plus_one(distances, n),
+                                    round=core.s_round, isfinite=lambda v: True, check_int_range=__import__("harness.pack_common", fromlist=["x"]).s_check_int_range,
+                                    _rt_super=lambda: _QapRecorder(box)))
+    f = xform.transform(oi.Instance.__init__, overrides=ov)
+
+    def h(eng):
+        d = [[None] * n for _ in range(n)]
+        cs = []
+        for i in range(n):
+            for j in range(n):
+                if i == j:
+                    d[i][j] = 0
+                elif j > i:
+                    d[i][j] = fresh_int(f"d_{i}_{j}")
+                    cs.append(z3.And(d[i][j].e >= 1, d[i][j].e <= 50))
+                else:
+                    d[i][j] = d[j][i]
+        eng.assume(z3.And(*cs))
+        obj = f._shell.__new__(f._shell)
+        box.clear()
+        box["self"] = obj
+        f(obj, d, power, horizon, ("t",), [(f"o{i}", i) for i in range(n)])
+        eng.pending = []
+        F, Dm = box["flows"], box["distances"]
+        cs2 = []
+        for i in range(n):
+            cs2.append(lift(F[i, i]) == 0)
+            for j in range(n):
+                cs2.append(lift(Dm[i, j]) == abs(i - j))
+                if i != j:
+                    v = lift(d[i][j])
+                    less = z3.Sum([z3.If(lift(d[i][k]) < v, 1, 0) for k in range(n)])
+                    eq = z3.Sum([z3.If(lift(d[i][k]) == v, 1, 0) for k in range(n)])
+                    cs2.append(z3.Implies(2 * less + eq - 1 > 2 * horizon, lift(F[i, j]) == 0))      # 2*(rank-1) > 2*horizon
+                for k in range(n):
+                    if len({i, j, k}) == 3:
+                        cs2.append(z3.Implies(lift(d[i][j]) < lift(d[i][k]), lift(F[i, j]) >= lift(F[i, k])))
+                        cs2.append(z3.Implies(lift(d[i][j]) == lift(d[i][k]), lift(F[i, j]) == lift(F[i, k])))
+        eng.oblige(z3.And(*cs2), "flows: zero diagonal, zero beyond the horizon, equal for equally distant neighbours, never smaller for a nearer one; distances |i-j|", now=True)
+        return "built"
+    eng = Engine(timeout_ms=120000, deadline=time.time() + timeout_s)
+    ok = eng.explore(h)
+    common = dict(paths=eng.paths, queries=dict(sat=eng.n_sat, unsat=eng.n_unsat, unknown=eng.unknown), solver_s=round(eng.t_solver, 2), vacuity=dict(outcomes=eng.outcomes))
+    if eng.violations:
+        v = eng.violations[0]
+        md = {dd.name(): v.model[dd].as_long() for dd in v.model.decls() if z3.is_int_value(v.model[dd])}
+        D = [[0 if a == b else md.get(f"d_{min(a, b)}_{max(a, b)}", 1) for b in range(n)] for a in range(n)]
+        w = dict(clause="flows", D=D, power=power, horizon=horizon, label=v.label)
+        try:
+            bad, info = replay_flows(w)
+        except Exception as ex:
+            return inconclusive(f"replay raised {type(ex).__name__}: {ex}; {w}", **common)
+        w["observed"] = info
+        if bad:
+            return violated("flows", "order1d/instance.py:Instance.__init__", f"distances {D} power {power} horizon {horizon} -> {info}", w, validated=1, **common)
+        return inconclusive(f"model does not replay ({v.label}): {w}", **common)
+    if not ok or not eng.outcomes.get("built"):
+        return inconclusive(f"not conclusive {eng.stats()}", **common)
+    return held(summary=f"flow construction n={n} power={power} horizon={horizon}: {eng.paths} paths", sample=dict(n=n, power=power, horizon=horizon), **common)
+
+
+def _rank_plus_one(distances, n):
+    """rankdata(...) itself (the code subtracts 1.0 afterwards): model + 1"""
+    r = sym_rankdata_minus_one(distances, n)
+    return SymArray([c + 1 for c in r.cells_list()], (n, n), name="rankdata")
+
+
+def job_rank_selftest(seed):
+    """the declarative rank model against scipy.stats.rankdata, and the documented flow properties on the real constructor (concrete)"""
+    import numpy as np
+    from scipy.stats import rankdata
+    rnd = random.Random(seed)
+    cnt = 0
+    for _ in range(200):
+        n = rnd.randint(2, 6)
+        D = [[0] * n for _ in range(n)]
+        for i in range(n):
+            for j in range(i):
+                D[i][j] = D[j][i] = rnd.randint(1, 4)
+        real = (rankdata(np.array(D), axis=1, method="average") - 1.0).tolist()
+        for i in range(n):
+            for j in range(n):
+                less = sum(1 for k in range(n) if D[i][k] < D[i][j])
+                eq = sum(1 for k in range(n) if D[i][k] == D[i][j])
+                if abs((2 * less + eq + 1) / 2 - 1 - real[i][j]) > 1e-12:
+                    return inconclusive(f"rank model differs from scipy on {D}")
+        for power, horizon in ((1, 100), (2, 2), (3, 1)):
+            bad, info = replay_flows(dict(D=D, power=power, horizon=horizon))
+            cnt += 1
+            if bad:
+                w = dict(clause="flows", D=D, power=power, horizon=horizon, observed=info)
+                return violated("flows", "order1d/instance.py:Instance.__init__", f"distances {D} power {power} horizon {horizon} -> {info}", w, validated=cnt, paths=cnt)
+    return held(validated=cnt, paths=cnt, queries={}, summary=f"rank model == scipy.stats.rankdata on 200 matrices; {cnt} real instances satisfy the flow properties (concrete)")
+
+
 def eng_true(eng, cond):
     """is cond implied on this path? (the path has already decided every distance == 0 test the code performed;
     tests the code did not perform are forked here)"""
@@ -305,6 +472,9 @@ def jobs(tier):
     js = [Job("cayley-bfs", job_cayley, dict(nmax=6 if tier == "quick" else 7), "swap_distance", 900)]
     for n in (2, 3, 4, 5, 6) + ((7,) if tier == "thorough" else ()):
         js.append(Job(f"swap/n{n}", job_swap, dict(n=n, timeout_s=900 if n <= 5 else 3000), "swap_distance", 1000 if n <= 5 else 3300, weight=n))
+    js.append(Job("rank-selftest", job_rank_selftest, dict(seed=0), "flows", 600))
+    for n, power, horizon in ((3, 1, 100), (3, 2, 1), (3, 3, 2), (4, 2, 100), (4, 1, 2)) + (((4, 3, 2), (5, 2, 100), (5, 1, 2), (4, 2, 1)) if tier == "thorough" else ()):
+        js.append(Job(f"flows/n{n}/p{power}/h{horizon}", job_flows, dict(n=n, power=power, horizon=horizon), "flows", 1800, weight=n))
     for m in (2, 3, 4, 5, 6) + ((7,) if tier == "thorough" else ()):
         js.append(Job(f"from-sequence/m{m}", job_from_sequence, dict(m=m, timeout_s=900 if m <= 4 else 3000), "from_sequence", 1000 if m <= 4 else 3300, weight=m))
     return js
@@ -314,8 +484,10 @@ def meta(tier):
     return dict(
         bounds=dict(swap_distance="all pairs of symbolic permutations of length <= 6 (thorough 7): result == n - #cycles(p2 o p1^-1), cycles counted declaratively; "
                                   "Cayley (n - cycles = minimum number of transpositions) re-confirmed by exhaustive BFS for n <= 6 - that half is enumeration, not a solver verdict",
+                    flows="Instance.__init__ on a symbolic symmetric distance matrix of 3-4 (thorough 5) objects (entries 1..50), integer flow powers 1..3, horizons 1, 2 and unbounded: zero diagonal, zero beyond the horizon, "
+                          "equal flows for equally distant neighbours, never a smaller flow for a nearer neighbour, |i-j| distances (scipy rankdata replaced by its declarative definition, validated against scipy per run)",
                     from_sequence="<= 6 (thorough 7) abstract objects, symbolic symmetric distance table with triangle inequality"),
-        outside=["the flow construction in Instance.__init__ (scipy rankdata, float powers and rounding): only checked on replayed witnesses", "|i-j| position distances (literal code)",
+        outside=["non-integer flow powers; more than 4 (thorough 5) objects in the flow construction", 
                  "distance functions that are not pseudo-metrics"],
         assumptions=["np.argsort of a permutation is its inverse", "get_distance is symmetric, non-negative and satisfies the triangle inequality"],
-        stubs=["Instance constructor replaced by a recorder of (distances, tags) inside from_sequence_and_distance", "np.array(list) keeps the nested lists", "isfinite -> True for symbolic integers"])
+        stubs=["scipy.stats.rankdata -> declarative average-rank model; round()/int() of reals -> nearest/truncated integer; QAP base constructor -> recorder", "Instance constructor replaced by a recorder of (distances, tags) inside from_sequence_and_distance", "np.array(list) keeps the nested lists", "isfinite -> True for symbolic integers"])
